@@ -12,7 +12,7 @@ import (
 func init() {
 	register(&Spec{ID: "C03", Title: "Each response is delimited by exactly one final DONE and fully drained", Run: runC03,
 		Meta: core.Meta{
-			Explanation: "R03.19 = R01.2 (sendPacket sets EOM from the body being short, nothing else: a full packet flushed early by QueuePackage must not end the message, or the server answers one request twice and the second answer is read as the next response). R03.18 (who-may-write): Channel.lastPkgRx is stored by tryParsePackage and SetLastPkgRx only. R03.17 = R07.10. R03.16 = R15.14 (Byte and the typed readers never index the queue themselves: a fast path that disagrees with Bytes about the position at a packet end reports not-enough-bytes forever and the response is never terminated). R03.13 = R15.4 (PacketQueue.Reset clears queue, both indices and the EOM flag: nothing of one response survives into the next). R03.14 = R02.1 (SetPosition gets the pair one Position() call returned for this attempt, read after the discard). R03.15: on every path of tryParsePackage that reports on the error queue the answer is false. Structural necessary conditions of response delimiting, decided on SSA. R03.1: every test of 'final DONE' in package tds (outside Login, which is C08's) is an exact comparison of DonePackage.Status with TDS_DONE_FINAL; a mask test against the zero-valued constant is recognised as constant-false; isDoneFinal answers true only for an asserted *DonePackage whose Status equals TDS_DONE_FINAL. R03.2: the synthetic DONE(FINAL) in tryParsePackage is sent only when the token read failed, the queue is at EOM and the last delivered package is not a DONE with Status == FINAL (path condition), the function then returns false, and WritePacket resets the rx queue on the EOM edge of a failed attempt; every delivery `packageCh <- pkg` is followed on all paths by lastPkgRx = pkg. R03.3: in NextPackageUntil every path from a callback error to a return either compares the error for identity with io.EOF (the documented multi-result-set shortcut; errors.Is would also swallow wrapped EOFs), or has isDoneFinal(pkg) true, or passes the draining recursive call NextPackageUntil(ctx, wait, nil); in nil-callback mode every return is dominated by isDoneFinal being true or follows the recursive call whose callback is isDoneFinal. R03.5 = R02.4 (AddPacket sets recvEOM exactly under Status&TDS_BUFSTAT_EOM == TDS_BUFSTAT_EOM, a mask test: the EOM packet of a response may carry further status bits). R03.6: every error return of NextPackage other than the closed-channel one is dominated by the non-blocking receive from packageCh, so a drain running under an ended context still empties what was received. R03.7 = R07.1/R02.5: every wire read in every parser reports a short read as ErrNotEnoughBytes (matched by errors.Is); any other error for a package that is merely cut by a packet boundary is queued on errCh in the middle of a response, and the tail of that response is then read as the start of the next one. R03.8 = R02.7 (once a package of the response was consumed, an EED included, every further receive waits: a poll that gives up mid-response leaves its tail for the next request). R03.9 = R02.11 (the tx-side reset after a send must not touch the receive queue: the first packet of the response may already be in it). R03.10: every return of WritePacket behind the AddPacket call is on the !tryParsePackage() edge. R03.11 = R15.11 (Bytes reports not-enough-bytes only once every queued packet is consumed, so after a failed parse IsEOM() tells whether the message ended). R03.12 = R01.4. R03.4: Reset restores the tx side (header type, tx queue, lastPkgTx) and SendRemainingPackets runs it on every exit after the closed check.",
+			Explanation: "R03.20: every allocation in LookupPackage around a DonePackage is a DonePackage itself (three of them), not a distinct struct type that embeds one: tryParsePackage and isDoneFinal assert *DonePackage. R03.21: the packet Conn.ReadFrom hands to WritePacket is allocated inside the read loop (the receive queue keeps pointers to the packets of a partly received package). R03.19 = R01.2 (sendPacket sets EOM from the body being short, nothing else: a full packet flushed early by QueuePackage must not end the message, or the server answers one request twice and the second answer is read as the next response). R03.18 (who-may-write): Channel.lastPkgRx is stored by tryParsePackage and SetLastPkgRx only. R03.17 = R07.10. R03.16 = R15.14 (Byte and the typed readers never index the queue themselves: a fast path that disagrees with Bytes about the position at a packet end reports not-enough-bytes forever and the response is never terminated). R03.13 = R15.4 (PacketQueue.Reset clears queue, both indices and the EOM flag: nothing of one response survives into the next). R03.14 = R02.1 (SetPosition gets the pair one Position() call returned for this attempt, read after the discard). R03.15: on every path of tryParsePackage that reports on the error queue the answer is false. Structural necessary conditions of response delimiting, decided on SSA. R03.1: every test of 'final DONE' in package tds (outside Login, which is C08's) is an exact comparison of DonePackage.Status with TDS_DONE_FINAL; a mask test against the zero-valued constant is recognised as constant-false; isDoneFinal answers true only for an asserted *DonePackage whose Status equals TDS_DONE_FINAL. R03.2: the synthetic DONE(FINAL) in tryParsePackage is sent only when the token read failed, the queue is at EOM and the last delivered package is not a DONE with Status == FINAL (path condition), the function then returns false, and WritePacket resets the rx queue on the EOM edge of a failed attempt; every delivery `packageCh <- pkg` is followed on all paths by lastPkgRx = pkg. R03.3: in NextPackageUntil every path from a callback error to a return either compares the error for identity with io.EOF (the documented multi-result-set shortcut; errors.Is would also swallow wrapped EOFs), or has isDoneFinal(pkg) true, or passes the draining recursive call NextPackageUntil(ctx, wait, nil); in nil-callback mode every return is dominated by isDoneFinal being true or follows the recursive call whose callback is isDoneFinal. R03.5 = R02.4 (AddPacket sets recvEOM exactly under Status&TDS_BUFSTAT_EOM == TDS_BUFSTAT_EOM, a mask test: the EOM packet of a response may carry further status bits). R03.6: every error return of NextPackage other than the closed-channel one is dominated by the non-blocking receive from packageCh, so a drain running under an ended context still empties what was received. R03.7 = R07.1/R02.5: every wire read in every parser reports a short read as ErrNotEnoughBytes (matched by errors.Is); any other error for a package that is merely cut by a packet boundary is queued on errCh in the middle of a response, and the tail of that response is then read as the start of the next one. R03.8 = R02.7 (once a package of the response was consumed, an EED included, every further receive waits: a poll that gives up mid-response leaves its tail for the next request). R03.9 = R02.11 (the tx-side reset after a send must not touch the receive queue: the first packet of the response may already be in it). R03.10: every return of WritePacket behind the AddPacket call is on the !tryParsePackage() edge. R03.11 = R15.11 (Bytes reports not-enough-bytes only once every queued packet is consumed, so after a failed parse IsEOM() tells whether the message ended). R03.12 = R01.4. R03.4: Reset restores the tx side (header type, tx queue, lastPkgTx) and SendRemainingPackets runs it on every exit after the closed check.",
 			NotDecided:  "That the first package after the next request belongs to the next response depends on the history of lastPkgRx and is not decided; EED interleavings and packetisations are not explored.",
 			Assumptions: []string{"the reader goroutine is the only caller of tryParsePackage (checked: one call site)"},
 		}})
@@ -54,6 +54,10 @@ func runC03(r *core.Run) {
 	defer lastPkgRxWriters(r, "R03.18")
 	r.Rule("R03.19", "a request is one message: EOM exactly on packets shorter than the live body size (R01.2)", 3, false)
 	defer c01SendPacket(r, "R03.19")
+	r.Rule("R03.20", "DONE, DONEPROC and DONEINPROC are one type, the one the finality tests assert", 3, false)
+	defer doneFamilyOneType(r, "R03.20")
+	r.Rule("R03.21", "every received packet is an object of its own", 1, false)
+	defer freshPacketPerRead(r, "R03.21")
 
 	fDoneStatus := p.Field("tds", "DonePackage", "Status")
 	cFinal := constOf(p, "tds", "TDS_DONE_FINAL")
